@@ -80,7 +80,7 @@ pub fn from_seq(config_dir: Option<PathBuf>, tag: String, output: Option<PathBuf
         let (_ , from) = if let Some(alias) = &seq.alias {
             let mut a_path = dir_path.to_path_buf();
             a_path.push(alias.as_ref());
-            a_path.set_extension(ALIAS_FILE_EXT);
+            util::set_default_extension(&mut a_path, ALIAS_FILE_EXT);
             parse::parse_alias(&util::validate(&a_path, &[ALIAS_FILE_EXT, "txt"])?)?
         } else {
             (Vec::new(), Vec::new())
@@ -98,7 +98,7 @@ pub fn from_seq(config_dir: Option<PathBuf>, tag: String, output: Option<PathBuf
         let (into, from) = if let Some(alias) = &seq.alias {
             let mut a_path = dir_path.to_path_buf();
             a_path.push(alias.as_ref());
-            a_path.set_extension(ALIAS_FILE_EXT);
+            util::set_default_extension(&mut a_path, ALIAS_FILE_EXT);
             parse::parse_alias(&util::validate(&a_path, &[ALIAS_FILE_EXT, "txt"])?)?
         } else {
             (Vec::new(), Vec::new())
